@@ -5,6 +5,9 @@ def _dist_key(op, impl):
         nfr = sum(len(c.split("+")) for c in impl.split("|")[0].split(",") if c not in (".", ""))
         return "frames -> %s, %s frames" % ("err" if tail.startswith("err") else ("buf empty" if tail == "buf=-" else "buf partial"),
                                              "0" if nfr == 0 else ("1" if nfr == 1 else "2+"))
+    if kind in ("readloop", "recv"):
+        n = len([c for c in impl.split("|")[0].split("+") if c not in (".", "")])
+        return "%s -> %s, %s" % (kind, impl.split("|")[-1][:40], "0 frames" if n == 0 else ("1 frame" if n == 1 else "2+ frames"))
     return "conv -> " + " ".join(impl.split(" ")[:2])
 
 
@@ -28,7 +31,10 @@ CONFIG = dict(
         note="the real readLoop (bufio reader, readData, connection buffer, decodeData, hand-over to msgChan) is run on scripted "
              "connections for well-formed streams of at most 30 frames (read sizes incl. multiples of 1024 and 4096 bytes, incomplete tails): "
              "every fully received frame must have been handed over when the peer goes idle; frames handed out by decodeData are "
-             "looked at only when the slowest legal consumer of the 32-slot channel would see them. The channel overflow itself is modelled "
+             "looked at only when the slowest legal consumer of the 32-slot channel would see them; and the whole receive path "
+             "(handleConnection: readLoop, receiveMessage, convertToMessage, the real daemon messages' Handle on a Daemon reduced "
+             "to its event queue) is run on well-formed bursts, the queued messages being looked at only after the whole burst, "
+             "as the daemon's event loop may (they must re-encode to the frames sent, in order). The channel overflow itself is modelled "
              "by queue_ok_iff (a burst is accepted iff it fits) which is the property's own proviso. Defect repaired while building: "
              "decodeData dropped complete frames when a read ended inside the next frame.",
         technique="Lean 4 proof (induction over the stream for all chunkings) + regenerated protocol tables + differential correspondence with the real framing and conversion functions",
